@@ -16,6 +16,11 @@ def main(tier):
                          label=f'ReferenceDatabase load + query: {ng} genomes, signature file with up to {slots} IDs',
                          bounds={'genomes': ng, 'signature IDs': f'every arrangement of up to {slots} distinct IDs (genome IDs in any order, up to 2 unrelated IDs, genomes possibly missing)',
                                  'id_attr': 'key / genbank_acc / refseq_acc / ncbi_id / None / an unknown name'}))
+    for world, what in ((1, 'two genomes share an NCBI uid (different NCBI databases)'), (2, 'one genome has no RefSeq accession')):
+        jobs.append(dict(path=H, fname='_c04_load', params={'genomes': 3, 'slots': 4, 'world': world}, timeout=400 if tier == 'quick' else 1200, self_reach=True,
+                         label=f'ReferenceDatabase load + query: {what}',
+                         bounds={'genomes': 3, 'genome set': what, 'signature IDs': 'every arrangement of up to 4 IDs', 'id_attr': 'all four / None / unknown',
+                                 'expected': 'loading by the affected attribute fails (some genome cannot have a signature of its own); the other attributes behave as usual'}))
     jobs.append(dict(path=H, fname='_c04_files', params={'files': 1}, timeout=600, self_reach=True, unblock=['sqlite3.connect', 'sqlite3.connect/handle'], label='load_from_dir on real SQLite + HDF5 files, real query',
                      bounds={'genomes': 3, 'signature order': 'all 6 permutations', 'unrelated signature': 'none or at each of 4 positions', 'id_attr': 'all four (string and integer IDs)'}))
     xprop.run_jobs(run, jobs, rung=tier)
